@@ -284,6 +284,11 @@ func (d *Device) handleABSEvent(ie *input.InputEvent) {
 			if !ok {
 				d.AnalogNoteOn(identifier, analog.Note, analog.ChannelOffset, ie)
 			}
+		case value < 0:
+			// between 49% and half travel keeps what is sounding on this side, but the other side is released
+			d.AnalogNoteOff(identifier, ie)
+		default:
+			d.AnalogNoteOff(identifierNeg, ie)
 		}
 	case config.AnalogActionSim:
 		if !canBeNegative {
